@@ -145,9 +145,49 @@ static void runCase(long k, const std::string &tag, const vs::Scene &s, const st
 //      per transaction, and after EVERY transaction the routes are dumped together with an oracle
 //      certificate for the *current* scene.  Each transaction is its own case (index kbase + step), so the
 //      driver judges a snapshot exactly like a static scene; `--only K` re-runs the history up to that step.
-struct EditOp { int kind; size_t shape; double dx, dy; };      // kind 0 = deleteShape, 1 = moveShape(dx, dy)
+struct EditOp {
+    int kind;           // 0 deleteShape, 1 moveShape(dx, dy), 2 add a small rectangle across a segment of the current
+                        // route of connector `conn`, 3 move shape `shape` across such a segment
+    size_t shape; double dx, dy;
+    size_t conn; int segsel;        // kinds 2/3: which segment: 0 first, 1 a middle one, 2 last, 3 any
+};
+static EditOp staticOp(int kind, size_t shape, double dx, double dy) { EditOp o; o.kind = kind; o.shape = shape; o.dx = dx; o.dy = dy; o.conn = 0; o.segsel = 3; return o; }
+static EditOp acrossOp(int kind, size_t shape, size_t conn, int segsel) { EditOp o; o.kind = kind; o.shape = shape; o.dx = o.dy = 0; o.conn = conn; o.segsel = segsel; return o; }
 
-static void runHistory(const vh::Args &a, long kbase, const std::string &tag, const vs::Scene &s0, const std::vector<ConnSpec> &cs,
+static vs::DPoly rectD(double lx, double ly, double hx, double hy) {
+    vs::DPoly q; q.push_back(Point(hx, ly)); q.push_back(Point(hx, hy)); q.push_back(Point(lx, hy)); q.push_back(Point(lx, ly)); return q;
+}
+
+// Find an axis-parallel rectangle (half sizes hw, hh; <= 0: random) that crosses exactly the chosen segment of
+// `route`, keeps a gap >= 1 to every shape in `others`, and stays clear of every connector endpoint.
+static bool placeAcross(vh::Rng &r, const std::vector<Point> &route, int segsel, const std::vector<vs::DPoly> &others,
+                        const std::vector<ConnSpec> &cs, double hw0, double hh0, vs::DPoly &out, size_t &segOut) {
+    if (route.size() < 2) return false;
+    size_t n = route.size() - 1;
+    const double sizes[] = {0.5, 1, 1.5, 2, 3};
+    for (int t = 0; t < 80; ++t) {
+        size_t seg = (segsel == 0) ? 0 : (segsel == 2) ? n - 1 : (segsel == 1 && n >= 3) ? (size_t) r.range(1, (long) n - 2) : (size_t) r.range(0, (long) n - 1);
+        double hw = hw0 > 0 ? hw0 : sizes[r.range(0, 4)], hh = hh0 > 0 ? hh0 : sizes[r.range(0, 4)];
+        const Point &p = route[seg], &q = route[seg + 1];
+        double u = r.range(20, 80) / 100.0;
+        double cx = std::floor((p.x + u * (q.x - p.x)) * 8 + 0.5) / 8 + r.range(-4, 4) / 8.0 * hw / 2;
+        double cy = std::floor((p.y + u * (q.y - p.y)) * 8 + 0.5) / 8 + r.range(-4, 4) / 8.0 * hh / 2;
+        cx = std::floor(cx * 8 + 0.5) / 8; cy = std::floor(cy * 8 + 0.5) / 8;
+        vs::DPoly R = rectD(cx - hw, cy - hh, cx + hw, cy + hh), Rg = rectD(cx - hw - 1, cy - hh - 1, cx + hw + 1, cy + hh + 1);
+        std::vector<LPt> RL; for (auto &v : R) RL.push_back(toL(v.x, v.y));
+        bool ok = true;
+        for (size_t i = 0; i < n && ok; ++i) {
+            bool hit = segHitsInteriorL(RL, toL(route[i].x, route[i].y), toL(route[i + 1].x, route[i + 1].y));
+            if (hit != (i == seg)) ok = false;
+        }
+        for (size_t i = 0; i < others.size() && ok; ++i) if (!vs::interiorDisjointD(Rg, others[i])) ok = false;
+        for (auto &c : cs) if (ok && (vs::inClosedD(R, c.sx, c.sy, 0.5) || vs::inClosedD(R, c.dx, c.dy, 0.5))) ok = false;
+        if (ok) { out = R; segOut = seg; return true; }
+    }
+    return false;
+}
+
+static void runHistory(vh::Rng &r, const vh::Args &a, long kbase, const std::string &tag, const vs::Scene &s0, const std::vector<ConnSpec> &cs,
                        bool lee, double penalty, bool ignoreRegions, bool invis, const std::vector<EditOp> &ops) {
     long last = kbase + (long) ops.size();
     if (a.only >= 0 && (a.only < kbase || a.only > last)) return;
@@ -165,10 +205,35 @@ static void runHistory(const vh::Args &a, long kbase, const std::string &tag, co
     std::string histLine;
     for (size_t step = 0; step <= ops.size(); ++step) {
         long k = kbase + (long) step;
+        EditOp op = staticOp(0, 0, 0, 0);
+        vs::DPoly added;
         if (step > 0) {
-            const EditOp &op = ops[step - 1];
-            char buf[160];
-            if (op.kind == 0) { snprintf(buf, sizeof buf, " | delete %zu", op.shape + 1); alive[op.shape] = 0; }
+            op = ops[step - 1];
+            char buf[200];
+            if (op.kind == 2 || op.kind == 3) {       // resolve against the current route of the connector
+                std::vector<vs::DPoly> others;
+                for (size_t i = 0; i < cur.size(); ++i) if (alive[i] && !(op.kind == 3 && i == op.shape)) others.push_back(cur[i]);
+                double hw = 0, hh = 0, ocx = 0, ocy = 0;
+                if (op.kind == 3) {
+                    double lx = 1e300, hx = -1e300, ly = 1e300, hy = -1e300;
+                    for (auto &v : cur[op.shape]) { lx = std::min(lx, v.x); hx = std::max(hx, v.x); ly = std::min(ly, v.y); hy = std::max(hy, v.y); }
+                    hw = (hx - lx) / 2; hh = (hy - ly) / 2; ocx = (hx + lx) / 2; ocy = (hy + ly) / 2;
+                }
+                size_t seg = 0;
+                const std::vector<Point> &rt = crs[op.conn]->route().ps;
+                if (!placeAcross(r, rt, op.segsel, others, cs, hw, hh, added, seg)) break;     // no room: the history ends here
+                if (op.kind == 2) {
+                    op.shape = cur.size();
+                    snprintf(buf, sizeof buf, " | add %zu across segment %zu/%zu of conn %u", op.shape + 1, seg + 1, rt.size() - 1, cs[op.conn].id);
+                    cur.push_back(added); alive.push_back(1); refs.push_back(nullptr);
+                } else {
+                    op.dx = (added[0].x + added[2].x) / 2 - ocx; op.dy = (added[0].y + added[2].y) / 2 - ocy;
+                    snprintf(buf, sizeof buf, " | move %zu %s %s across segment %zu/%zu of conn %u", op.shape + 1, vh::hx(op.dx).c_str(), vh::hx(op.dy).c_str(),
+                             seg + 1, rt.size() - 1, cs[op.conn].id);
+                    for (auto &v : cur[op.shape]) { v.x += op.dx; v.y += op.dy; }
+                }
+            }
+            else if (op.kind == 0) { snprintf(buf, sizeof buf, " | delete %zu", op.shape + 1); alive[op.shape] = 0; }
             else { snprintf(buf, sizeof buf, " | move %zu %s %s", op.shape + 1, vh::hx(op.dx).c_str(), vh::hx(op.dy).c_str());
                    for (auto &v : cur[op.shape]) { v.x += op.dx; v.y += op.dy; } }
             histLine += buf;
@@ -177,7 +242,14 @@ static void runHistory(const vh::Args &a, long kbase, const std::string &tag, co
         std::vector<vs::DPoly> now;
         for (size_t i = 0; i < cur.size(); ++i) if (alive[i]) now.push_back(cur[i]);
         if (emit) {     // inputs of this snapshot first
-            vh::beginCase(k, tag.c_str());
+            std::string tg = tag;
+            if (!tg.empty() && tg[tg.size() - 1] == '*') {      // per-snapshot tag: degenerate (collinear) scenes apart
+                tg.erase(tg.size() - 1);
+                std::vector<Point> eps; for (auto &c : cs) { eps.push_back(Point(c.sx, c.sy)); eps.push_back(Point(c.dx, c.dy)); }
+                if (vs::hasCollinearTriple(now, eps)) tg += "-collinear";
+                if (penalty > 0) tg += "-pen";
+            }
+            vh::beginCase(k, tg.c_str());
             printf("cfg lee %d penalty %s ignoreRegions %d invis %d\n", (int) lee, vh::hx(penalty).c_str(), (int) ignoreRegions, (int) invis);
             printf("hist step %zu of %zu : initial%s\n", step, ops.size(), histLine.c_str());
             for (size_t i = 0; i < cur.size(); ++i) if (alive[i]) vs::printShape((unsigned) (i + 1), cur[i]);
@@ -185,8 +257,8 @@ static void runHistory(const vh::Args &a, long kbase, const std::string &tag, co
             fflush(stdout);
         }
         if (step > 0) {
-            const EditOp &op = ops[step - 1];
             if (op.kind == 0) router->deleteShape(refs[op.shape]);
+            else if (op.kind == 2) { Polygon p = vs::toAvoid(cur[op.shape]); refs[op.shape] = new ShapeRef(router, p, (unsigned) (op.shape + 1)); }
             else router->moveShape(refs[op.shape], op.dx, op.dy);
         }
         router->processTransaction();
@@ -371,7 +443,7 @@ int main(int argc, char **argv) {
         for (size_t q = 0; q < blockers.size(); ++q) {
             size_t bi = blockers[q]; const Box &b = boxes[bi];
             int how = (int) r.range(0, 2);
-            EditOp op; op.shape = bi; op.dx = 0; op.dy = 0;
+            EditOp op = staticOp(0, bi, 0, 0);
             if (how == 0) op.kind = 0;
             else {
                 op.kind = 1;
@@ -382,9 +454,15 @@ int main(int argc, char **argv) {
             ops.push_back(op);
         }
         if (nBy >= 2 && r.coin(1, 3)) {     // finally remove one bystander too
-            for (size_t i = 0; i < role.size(); ++i) if (!role[i]) { EditOp op; op.kind = 0; op.shape = i; op.dx = op.dy = 0; ops.push_back(op); break; }
+            for (size_t i = 0; i < role.size(); ++i) if (!role[i]) { ops.push_back(staticOp(0, i, 0, 0)); break; }
         }
-        runHistory(a, k, penalty > 0 ? "edit-history-pen" : "edit-history", s, cs, true, penalty, ignoreRegions, invis, ops);
+        // then put something back across the (by now usually straight) route: a new small rectangle, or a bystander
+        if (r.coin(1, 2)) {
+            ops.push_back(acrossOp(2, 0, 0, (int) r.range(0, 3)));
+            if (r.coin(1, 3)) ops.push_back(acrossOp(2, 0, 0, (int) r.range(0, 3)));
+        }
+        while ((long) ops.size() > HSLOT - 1) ops.pop_back();
+        runHistory(r, a, k, penalty > 0 ? "edit-history-pen" : "edit-history", s, cs, true, penalty, ignoreRegions, invis, ops);
     }
     // family B ("edit-history-random"): separated grid scenes (integer or jittered), 1..3 connectors; 2..4
     // transactions each deleting or moving far away one remaining shape, preferably one that crosses the
@@ -420,14 +498,50 @@ int main(int argc, char **argv) {
             }
             if (rem.size() <= 1) break;
             size_t pick = (!crossing.empty() && r.coin(3, 4)) ? r.pick(crossing) : r.pick(rem);
-            EditOp op; op.shape = pick; op.kind = (int) r.range(0, 1); op.dx = 0; op.dy = (op.kind == 1) ? (double) (1000 + 300 * q) : 0;
+            EditOp op = staticOp((int) r.range(0, 1), pick, 0, 0); op.dy = (op.kind == 1) ? (double) (1000 + 300 * q) : 0;
             gone[pick] = 1;
             ops.push_back(op);
         }
         bool degenerate = false;
         { std::vector<Point> eps; for (auto &c : cs) { eps.push_back(Point(c.sx, c.sy)); eps.push_back(Point(c.dx, c.dy)); } degenerate = vs::hasCollinearTriple(rp, eps); }
         std::string tag = std::string("edit-history-random") + (degenerate ? "-collinear" : "") + (penalty > 0 ? "-pen" : "");
-        runHistory(a, k, tag, s, cs, true, penalty, ignoreRegions, invis, ops);
+        runHistory(r, a, k, tag, s, cs, true, penalty, ignoreRegions, invis, ops);
+    }
+    // family C ("edit-history-add"): sparse separated scenes; after the initial routing 1..4 transactions each ADD a small
+    // rectangle, or MOVE an existing rectangle, across exactly one chosen segment of the current route of a connector
+    // (first / middle / last / the only segment of a straight route).
+    long nhC = (thorough ? 120 : 30) * a.scale;
+    for (long h = 0; h < nhC; ++h, k += HSLOT) {
+        if (a.only >= 0 && (a.only < k || a.only >= k + HSLOT)) continue;
+        vh::Rng r = vh::caseRng(a.seed, k, 23);
+        bool generic = r.coin(1, 2);
+        double penalty = std::vector<double>{0, 0, 0, 0, 5, 50, 1.5}[r.range(0, 6)];
+        bool invis = r.coin(7, 8), ignoreRegions = r.coin(4, 5);
+        vs::SceneOpts so; so.nShapesMin = 1; so.nShapesMax = 5; so.margin = 2; so.rectPct = 75; so.jitter = generic; so.fullCellPct = 10;
+        vs::Scene g = vs::genScene(r, so);
+        vs::Scene s; s.W = g.W * 3; s.H = g.H * 3;
+        for (size_t i = 0; i < g.shapes.size(); ++i) { vs::DPoly q = g.shapes[i]; for (auto &v : q) { v.x *= 3; v.y *= 3; } s.shapes.push_back(q); s.isRect.push_back(g.isRect[i]); }
+        std::vector<vs::DPoly> rp = vs::routingPolys(s, 0);
+        std::vector<ConnSpec> cs;
+        int nconn = (int) r.range(1, 2);
+        for (int i = 0; i < nconn; ++i) {
+            ConnSpec c; c.id = 101 + i;
+            if (!vs::freePoint(r, s, rp, 1.0, c.sx, c.sy, false) || !vs::freePoint(r, s, rp, 1.0, c.dx, c.dy, false)) continue;
+            if (generic) { c.sx += r.range(-7, 7) / 64.0; c.sy += r.range(-7, 7) / 64.0; c.dx += r.range(-7, 7) / 64.0; c.dy += r.range(-7, 7) / 64.0; }
+            if (std::fabs(c.sx - c.dx) + std::fabs(c.sy - c.dy) < 8) continue;
+            cs.push_back(c);
+        }
+        if (cs.empty()) continue;
+        std::vector<size_t> rects; for (size_t i = 0; i < s.shapes.size(); ++i) if (s.isRect[i] && !generic) rects.push_back(i);
+        std::vector<EditOp> ops;
+        int nops = (int) r.range(1, 4);
+        for (int q = 0; q < nops; ++q) {
+            size_t conn = (size_t) r.range(0, (long) cs.size() - 1);
+            int segsel = (int) r.range(0, 3);
+            if (!rects.empty() && r.coin(1, 3)) { size_t pick = r.pick(rects); ops.push_back(acrossOp(3, pick, conn, segsel)); }
+            else ops.push_back(acrossOp(2, 0, conn, segsel));
+        }
+        runHistory(r, a, k, "edit-history-add*", s, cs, true, penalty, ignoreRegions, invis, ops);
     }
     return 0;
 }
